@@ -104,6 +104,13 @@ parser { loop { try { case { /[a-z]/ -> { s += [65]; yield WORD; } " " -> {} } }
     ("feat-yield-eof", ["-fyield-support", "-feof-support"], """yieldcode W, N, E; out int n = 0;
 parser { loop { greedy case { /\\s+/ -> { yield E; } /[a-z]+/ -> { yield W; } /\\d+/ -> { n = [n + 1]; yield N; } "(" -> { yield E; } end -> { break; } } } n = 7; }"""),
 ]
+# the only redirecting action of an action-only if/else sits in its else branch
+FEATURES += [
+    ("feat-else-break", [], """out int{unsigned, size 1} n = 0; out int m = 0; hook h;
+parser { loop outer { case { "a" -> { if n == 0 { n = 1; } else { break outer; } } "b" -> { m = [m + 1]; } "q" -> { if m == 2 { break outer; } } } } "z"; h(); }"""),
+    ("feat-else-append", [], """out int{unsigned, size 1} n = 0; out str[3] s; hook h;
+parser { loop { try { /[abc]/; if $last == 'a' { n = 0; } else { s += [66]; } if $last == 'c' { s += [67]; } } catch (outofspace) { h(); delete s; "!"; } } }"""),
+]
 # a program ending in an action-less fall-through into its final state (empty else clause / empty catch block)
 FEATURES += [
     ("feat-final-else", [], """out int m = 0; hook h;
@@ -125,6 +132,16 @@ parser { if $last == 5 { n = 1; } elif n == 0 { n = 2; } "a"; }"""),
 # machines with exactly 255 / 256 / 257 states (the width of the state member; the parked state of a failed end() is one more)
 for _n in (253, 254, 255):
     FEATURES.append(("feat-states-%d" % (_n + 2), ["-feof-support"], 'out int m = 0; hook h;\nparser { "%s"; m = 1; h(); }' % ("ab" * (_n // 2) + "c" * (_n % 2))))
+
+
+# more than 256 states of which fewer than 256 are not condition points (the width of the state member counts all of them)
+_ifs = " ".join('if n == %d { "p"; } else { "q"; }' % i for i in range(50))
+FEATURES.append(("feat-many-condition-points", [], 'out int{unsigned, size 1} n = 0; hook h;\nparser { "%s"; %s h(); }' % ("ab" * 20, _ifs)))
+# explicit long inputs for programs whose interesting states lie deeper than the bounded strings reach (cut at every single position by C02)
+FEATURE_WITNESSES = {
+    "feat-many-condition-points": [("ab" * 20 + "p" + "q" * 49).encode()],
+    "feat-states-255": [("ab" * 126 + "c").encode()], "feat-states-256": [("ab" * 127).encode()], "feat-states-257": [("ab" * 127 + "c").encode()],
+}
 
 
 def features():
